@@ -39,6 +39,15 @@ def H(name, module, props, bounded=None, tier='quick', timeout=300, doc='', carg
 
 
 HARNESSES = [
+    # ---- C01 / C14 / C04 leaves on header.rs ------------------------------------------------
+    H('k_be_link', 'kani_header.rs', ['C01', 'C14', 'C09'], doc='all u8/u16/u32/i32/u64: to_be_bytes equals the spec vocabulary be16/be32/be64 (links the Verus BeBytes contract to std)'),
+    H('k_type_map', 'kani_header.rs', ['C01', 'C05'], doc='all u32: from_type_as_u32 / type_as_u32 inverse on 0..=9, None otherwise'),
+    H('k_intro_rt', 'kani_header.rs', ['C01', 'C04'], doc='all 16-byte intros: accepted => fields are the BE words and write reproduces the input up to the 4 reserved bytes'),
+    H('k_intro_accept', 'kani_header.rs', ['C01', 'C04'], doc='all 16-byte intros: accepted iff magic 8e ad e8 and version 1'),
+    H('k_entry_rt', 'kani_header.rs', ['C01', 'C04', 'C05'], doc='all 16-byte index entries: accepted iff type < 10; fields are the BE words; write_index reproduces the input'),
+    H('k_entry_short', 'kani_header.rs', ['C04'], doc='all inputs shorter than 16 bytes: Err, no panic'),
+    H('k_write_index_sink_1byte', 'kani_header.rs', ['C14'], bounded='one sink: accepts 1 byte per call, never fails (all tag/offset/count values)', doc='counterexample twin of V:IndexEntry::write_index: Ok => exactly the 16 canonical bytes'),
+    H('k_write_index_sink_fail5', 'kani_header.rs', ['C14'], bounded='one sink: 1 byte per call, fails at call 5', tier='thorough', timeout=900, doc='Err => the 5 accepted bytes are a prefix of the canonical bytes'),
     # ---- C18 -------------------------------------------------------------------------------
     H('k_filemode_u16', 'kani_types.rs', ['C18'], doc='all u16: from/raw_mode identity, parts recombine, classification, reason text'),
     H('k_filemode_i32', 'kani_types.rs', ['C18'], doc='all i32: out-of-range => Invalid + try_from_raw Err; in range == from(i as u16)'),
